@@ -145,3 +145,66 @@ func BadT9(xs []int) int {
 	}
 	return n
 }
+
+// helpers evaluated in the caller's state (zone_inline.go)
+
+type hist struct {
+	items []string
+	pos   int
+}
+
+func (h *hist) clamped() int {
+	back := h.pos
+	if back > len(h.items) {
+		back = len(h.items)
+	}
+	if back < 0 {
+		back = 0
+	}
+	return back
+}
+
+func (h *hist) unclamped() int { return h.pos }
+
+func minInt(a, b int) int {
+	if a < b {
+		return a
+	}
+	return b
+}
+
+// the clamp lives in a helper: the slice is within the bounds
+func GoodHelperClamp(h *hist) []string {
+	items, back := h.items, h.clamped()
+	return items[:len(items)-back]
+}
+
+// helper with integer parameters only
+func GoodHelperMin(s []string, n int) []string {
+	if n < 0 {
+		return nil
+	}
+	return s[:minInt(n, len(s))]
+}
+
+// the helper does not clamp
+func BadHelperNoClamp(h *hist) []string {
+	items, back := h.items, h.unclamped()
+	return items[:len(items)-back]
+}
+
+// the field is written between the caller's load and the helper's
+func BadHelperStaleLoad(h *hist, more []string) []string {
+	items := h.items
+	h.items = more
+	back := h.clamped()
+	return items[:len(items)-back]
+}
+
+// two evaluations of the same helper on different receivers must not share facts
+func BadHelperTwoReceivers(a, b *hist) []string {
+	items := a.items
+	_ = a.clamped()
+	back := b.clamped()
+	return items[:len(items)-back]
+}
